@@ -391,6 +391,159 @@ fn body(c: &Case, ch: &Chooser) -> Outcome {
 }
 
 // ---------------------------------------------------------------------------------------------
+// sequences: what one connection / endpoint established must not vouch for the next one
+
+#[derive(Clone, Copy, Debug, PartialEq, Eq)]
+enum SeqKind {
+    /// one channel; its first connection negotiates h2 with a terminator, is cut, and the reconnect
+    /// reaches a terminator that shares the TLS session store (so the session is resumed) but
+    /// offers no ALPN: nothing may be transmitted on it (assume_http2 is off)
+    ResumedWithoutAlpn,
+    /// two endpoints configured from clones of ONE ClientTlsConfig without domain_name: the one
+    /// whose URI host is in the certificate connects, the one whose host is not must fail —
+    /// `first_valid` says which of the two is set up and used first
+    SharedConfig { first_valid: bool },
+}
+
+#[derive(Clone, Debug)]
+struct SeqCase {
+    kind: SeqKind,
+    chop: usize,
+}
+
+fn seq_body(c: &SeqCase, _ch: &Chooser) -> Outcome {
+    let rt = vnet::runtime(3);
+    let c2 = c.clone();
+    let (log, bad): (Vec<String>, Vec<(String, String)>) = rt.block_on(async move {
+        let c = c2;
+        let mut log = vec![];
+        let mut bad = vec![];
+        let (st, mut rx) = vnet::connector_state(ConnectMode::Succeed, false, c.chop);
+        let seen = Arc::new(Seen::default());
+        let svc = EchoServer::new(TlsEcho { seen: seen.clone() });
+        match c.kind {
+            SeqKind::ResumedWithoutAlpn => {
+                // two terminator configurations sharing one session store
+                let mut with_h2 = (*terminator_config(Alpn::NoneOffered, ClientAuth::NotRequested)).clone();
+                with_h2.alpn_protocols = vec![b"h2".to_vec()];
+                let mut without = (*terminator_config(Alpn::NoneOffered, ClientAuth::NotRequested)).clone();
+                without.session_storage = with_h2.session_storage.clone();
+                without.ticketer = with_h2.ticketer.clone();
+                let (with_h2, without) = (Arc::new(with_h2), Arc::new(without));
+                let (ptx, prx) = tokio::sync::mpsc::unbounded_channel::<NetIo>();
+                tokio::spawn(async move {
+                    let _ = Server::builder().add_service(svc).serve_with_incoming(vnet::incoming(prx)).await;
+                });
+                tokio::spawn(async move {
+                    let mut n = 0usize;
+                    while let Some(io) = rx.recv().await {
+                        let cfg = if n == 0 { with_h2.clone() } else { without.clone() };
+                        n += 1;
+                        let ptx = ptx.clone();
+                        tokio::spawn(async move {
+                            if let Ok(mut tls) = tokio_rustls::TlsAcceptor::from(cfg).accept(io).await {
+                                let (mut a, b) = vnet::pipe(1 << 16, &(vec![], 0), &(vec![], 0));
+                                if ptx.send(b).is_ok() {
+                                    let _ = tokio::io::copy_bidirectional(&mut tls, &mut a).await;
+                                }
+                            }
+                        });
+                    }
+                });
+                let tls = ClientTlsConfig::new().ca_certificate(Certificate::from_pem(CA_A));
+                let ep = Endpoint::from_static("https://server.test:443").tls_config(tls).unwrap_or_else(|e| crate::explore::machinery(format!("tls config: {e}")));
+                let chn = match vnet::within(Duration::from_secs(600), ep.connect_with_connector(vnet::connector(st.clone()))).await {
+                    Some(Ok(chn)) => chn,
+                    other => {
+                        bad.push(("valid-configuration-refused".into(), format!("first connection (h2 negotiated) failed: {:?}", other.map(|r| r.map(|_| ()).map_err(|e| e.to_string())))));
+                        return (log, bad);
+                    }
+                };
+                let mut client = EchoClient::new(chn);
+                let first = vnet::within(Duration::from_secs(600), client.unary(Request::new(vec![1]))).await;
+                log.push(format!("first call: {:?}", first.as_ref().map(|r| r.as_ref().map(|_| "answer").map_err(|e| e.code()))));
+                if !matches!(&first, Some(Ok(_))) {
+                    bad.push(("valid-configuration-refused".into(), "the first call (h2 negotiated, valid certificate) did not succeed".into()));
+                    return (log, bad);
+                }
+                vnet::settle_ms(20).await;
+                // the connection is lost
+                for s in st.conns.lock().unwrap().iter() {
+                    s.cut();
+                }
+                vnet::settle_ms(20).await;
+                for attempt in 0..3 {
+                    let r = vnet::within(Duration::from_secs(600), client.unary(Request::new(vec![1]))).await;
+                    log.push(format!("call after reconnect #{attempt}: {:?}", r.as_ref().map(|r| r.as_ref().map(|_| "answer").map_err(|e| e.code()))));
+                    match r {
+                        None => bad.push(("hang".into(), "a call after the reconnect never completed".into())),
+                        Some(Ok(_)) => bad.push(("call-transmitted:h2-not-negotiated".into(), format!("call #{attempt} after the reconnect succeeded although the new connection negotiated no ALPN protocol (resumed session)"))),
+                        Some(Err(_)) => {}
+                    }
+                    vnet::settle_ms(5).await;
+                }
+                let calls = seen.calls.load(Ordering::SeqCst);
+                log.push(format!("handler calls: {calls}; connector invocations: {}", st.invocations.load(Ordering::SeqCst)));
+                if calls != 1 {
+                    bad.push(("call-transmitted:h2-not-negotiated".into(), format!("{calls} handler invocations; only the first call may reach the handler")));
+                }
+            }
+            SeqKind::SharedConfig { first_valid } => {
+                let tls = ServerTlsConfig::new().identity(Identity::from_pem(SERVER_CERT, SERVER_KEY));
+                let mut b = Server::builder().tls_config(tls).unwrap_or_else(|e| crate::explore::machinery(format!("server tls config: {e}")));
+                tokio::spawn(async move {
+                    let _ = b.add_service(svc).serve_with_incoming(vnet::incoming(rx)).await;
+                });
+                let shared = ClientTlsConfig::new().ca_certificate(Certificate::from_pem(CA_A));
+                let order: [(&str, bool); 2] = if first_valid { [("https://server.test:443", true), ("https://uri-host.test:443", false)] } else { [("https://uri-host.test:443", false), ("https://server.test:443", true)] };
+                for (uri, valid) in order {
+                    let ep = Endpoint::from_static(uri).tls_config(shared.clone()).unwrap_or_else(|e| crate::explore::machinery(format!("tls config: {e}")));
+                    let before = seen.calls.load(Ordering::SeqCst);
+                    let ok = match vnet::within(Duration::from_secs(600), ep.connect_with_connector(vnet::connector(st.clone()))).await {
+                        None => {
+                            bad.push(("hang".into(), format!("connect to {uri} never completed")));
+                            false
+                        }
+                        Some(Err(_)) => false,
+                        Some(Ok(chn)) => {
+                            let mut client = EchoClient::new(chn);
+                            matches!(vnet::within(Duration::from_secs(600), client.unary(Request::new(vec![1]))).await, Some(Ok(_)))
+                        }
+                    };
+                    let reached = seen.calls.load(Ordering::SeqCst) - before;
+                    log.push(format!("{uri}: ok={ok} handler calls={reached}"));
+                    if valid && !ok {
+                        bad.push(("valid-configuration-refused".into(), format!("{uri} is named by the certificate but the call did not succeed (endpoints configured from clones of one ClientTlsConfig)")));
+                    }
+                    if !valid && (ok || reached > 0) {
+                        bad.push(("call-transmitted:server-name-mismatch".into(), format!("{uri} is not named by the certificate, yet the call succeeded={ok} / reached the handler {reached} time(s) (endpoints configured from clones of one ClientTlsConfig)")));
+                    }
+                    vnet::settle().await;
+                }
+            }
+        }
+        (log, bad)
+    });
+    drop(rt);
+    let mut o = Outcome::new(format!("{log:?}"));
+    o.nontrivial = true;
+    for (k, why) in bad {
+        o.violate(k, why);
+    }
+    o
+}
+
+fn seq_cases() -> Vec<SeqCase> {
+    let mut out = vec![];
+    for chop in [0usize, 2, 3] {
+        out.push(SeqCase { kind: SeqKind::ResumedWithoutAlpn, chop });
+        out.push(SeqCase { kind: SeqKind::SharedConfig { first_valid: true }, chop });
+        out.push(SeqCase { kind: SeqKind::SharedConfig { first_valid: false }, chop });
+    }
+    out
+}
+
+// ---------------------------------------------------------------------------------------------
 // balanced channels: every endpoint is authenticated with its OWN TLS settings
 //
 // `Channel::balance_channel` connects inserted endpoints with tonic's own TCP connector, so this
@@ -565,6 +718,15 @@ pub fn property(tier: Tier) -> Property {
         body,
     )
     .mins(400, 4, 400);
+    let seq = Section::new(
+        "connection-sequences",
+        Config { hang_secs: 60, ..Default::default() },
+        "cases (x 3 pipe fragmentation patterns, virtual time, in-memory pipes): (a) one channel whose first connection negotiates h2 with a TLS terminator; the connection is cut; the reconnect reaches a terminator that shares the TLS session store (the session is resumed) but offers no ALPN protocol: with assume_http2 off none of the following calls may succeed or reach the handler; (b) two endpoints configured from clones of ONE ClientTlsConfig without domain_name, one whose URI host the certificate names and one whose host it does not name, in both orders: the first must be served, the second must fail to connect. All cases count as non-trivial.",
+        seq_cases(),
+        |c: &SeqCase| format!("{c:?}"),
+        seq_body,
+    )
+    .mins(9, 2, 9);
     let bal = Section::new(
         "balanced-endpoints",
         Config { hang_secs: 120, ..Default::default() },
@@ -583,7 +745,7 @@ pub fn property(tier: Tier) -> Property {
             "section balanced-endpoints uses real loopback TCP and real time (tonic gives a balanced channel no custom connector); its verdicts are answered / not answered within generous bounds".into(),
             "peer certificates are read from the TlsConnectInfo<()> request extension because the pipe's ConnectInfo is () (Request::peer_certs is typed for TCP)".into(),
         ],
-        sections: vec![sec, bal],
+        sections: vec![sec, seq, bal],
         extra: Default::default(),
     }
 }
